@@ -99,3 +99,86 @@ c06_uint_decode!(c06_decode_u32, OptionValueU32, u32, 4);
 //@ bounds=every byte string of length 0..10
 //@ what=accept iff length <= width, value = big-endian fold
 c06_uint_decode!(c06_decode_u64, OptionValueU64, u64, 8);
+
+/// RFC 3629 well-formedness of a byte string of up to 4 bytes, written as a table of cases.
+fn ref_utf8_valid(b: &[u8; 4], l: usize) -> bool {
+    let mut i = 0usize;
+    let mut steps = 0;
+    while steps < 5 {
+        if i >= l {
+            return true;
+        }
+        let c = b[i];
+        let need = if c < 0x80 {
+            0
+        } else if c >= 0xC2 && c <= 0xDF {
+            1
+        } else if c >= 0xE0 && c <= 0xEF {
+            2
+        } else if c >= 0xF0 && c <= 0xF4 {
+            3
+        } else {
+            return false;
+        };
+        if need > 0 && i + need >= l {
+            return false;
+        }
+        if need >= 1 {
+            let d = b[i + 1];
+            let (lo, hi) = match c {
+                0xE0 => (0xA0, 0xBF),
+                0xED => (0x80, 0x9F),
+                0xF0 => (0x90, 0xBF),
+                0xF4 => (0x80, 0x8F),
+                _ => (0x80, 0xBF),
+            };
+            if d < lo || d > hi {
+                return false;
+            }
+        }
+        if need >= 2 && (b[i + 2] < 0x80 || b[i + 2] > 0xBF) {
+            return false;
+        }
+        if need >= 3 && (b[i + 3] < 0x80 || b[i + 3] > 0xBF) {
+            return false;
+        }
+        i += need + 1;
+        steps += 1;
+    }
+    true
+}
+
+//@ props=C06 tier=quick timeout=1800 mem=20 model=0
+//@ functions=TryFrom<Vec<u8>> for OptionValueString, From<OptionValueString> for Vec<u8>, String::from_utf8 (std's real validator)
+//@ bounds=every byte string of length 0..4 (symbolic length and bytes)
+//@ what=well-formed UTF-8 (RFC 3629, checked by an independent case table) is accepted and converts back to the same bytes; anything else is rejected with an error
+//@ outside=strings longer than 4 bytes; the text of the error message (core::fmt::write stubbed)
+#[kani::proof]
+#[kani::unwind(7)]
+#[kani::stub(core::fmt::write, crate::verif_harness::stub_write)]
+fn c06_string_roundtrip() {
+    let b: [u8; 4] = kani::any();
+    let l: usize = kani::any();
+    kani::assume(l <= 4);
+    let valid = ref_utf8_valid(&b, l);
+    match OptionValueString::try_from(b[..l].to_vec()) {
+        Ok(s) => {
+            assert!(valid, "C06: invalid UTF-8 is rejected");
+            let back: Vec<u8> = s.into();
+            assert!(back.len() == l, "C06: text option round trip keeps the length");
+            let i: usize = kani::any();
+            if i < l {
+                assert!(back[i] == b[i], "C06: text option round trip keeps the bytes");
+            }
+            kani::cover!(l == 4 && b[0] == 0xF0, "a four-byte code point");
+            kani::cover!(l == 3 && b[0] == 0xE2, "a three-byte code point");
+            kani::cover!(l == 0, "the empty string");
+        }
+        Err(_) => {
+            assert!(!valid, "C06: every well-formed UTF-8 string is accepted");
+            kani::cover!(l == 2 && b[0] == 0xC0, "an overlong encoding");
+            kani::cover!(l == 3 && b[0] == 0xED && b[1] == 0xA0, "a surrogate");
+            kani::cover!(l == 1 && b[0] >= 0x80, "a lone continuation or lead byte");
+        }
+    }
+}
